@@ -342,3 +342,24 @@ class SymDict(object):
                 ctx.py_raise(KeyError, key)
             return default
         ctx.unsupported("pop with a symbolic key")
+
+
+class SAbstractClass(object):
+    """the result of a registry lookup with a symbolic key: SOME class registered for the key.
+    Calling it applies the schematic constructor contract `ctor` (a python-level function
+    (ctx, abstract_class, args, kwargs) -> value) supplied by the sidecar."""
+
+    def __init__(self, kind, key, ctor):
+        self.kind = kind
+        self.key = key          # dict of interpreter values identifying the class (e.g. code, vendor)
+        self.ctor = ctor
+
+
+class SMapSeq(object):
+    """[f(x) for x in <symbolic sequence>]: only membership tests are modelled, as an
+    uninterpreted predicate of (sequence, value) named after the source text of f."""
+
+    def __init__(self, seq, key, elt_src):
+        self.seq = seq
+        self.key = key
+        self.elt_src = elt_src
